@@ -32,6 +32,13 @@ def impl_record(code):
 
 def gen_text(rng):
     c = rng.random()
+    if c < 0.06:
+        # hand-picked shapes: constructs read twice because the route around them fails, brackets in list terms, links in titles
+        import tokprops
+        shapes = ["[http://a b [[http://c]] d]", "[http://a.com see [[http://b.com]] x] and more", ";Array[0]: first element", "; see [1] for details",
+                  ";a[[b]]:c [d]", ";[http://x y]: z", "x\'\'\'\'\'y", "[[a|[http://b c]]]", "{{t|{{u}}{{v}}=w}}"]
+        outer = ["", "\'\'\'", "\'\'", "{{t|", "<b>", "== ", "[[File:x.png|", "{{{a|", "\n;"]
+        return rng.choice(outer) + rng.choice(shapes) + rng.choice(["", " tail", "\n"])
     if c < 0.55:
         return wikigen.gen_doc(rng, depth=rng.randint(1, 4))
     if c < 0.8:
